@@ -377,7 +377,32 @@ func runRemote(t *testing.T, r *rep.Reporter, c *rep.Case, idx int) {
 		wit["next_hops"] = hw
 
 		if judged && !consistent {
-			c.Inconclusive("accepted-recipient count differs between harness and next-hop transcript; not judged")
+			// The target accepted more recipients (AddRcpt -> nil) than the next hop was ever
+			// offered and accepted in this transaction: at least the difference was never
+			// transmitted, so at least that many accepted recipients of that next hop must
+			// carry a failure result (a caller reads "no result" as delivered). Anything else
+			// about such a transaction is not judged.
+			var fs []finding
+			for sp, f := range facts {
+				if f.accepted < accPerSp[sp] {
+					var acc []string
+					for _, a := range lt.Accepted {
+						if _, asp := splitAddr(a); asp == sp {
+							acc = append(acc, a)
+						}
+					}
+					var wireAcc []string
+					for _, rec := range f.recs {
+						wireAcc = append(wireAcc, rec.AcceptedRcpts()...)
+					}
+					fs = append(fs, neverOffered("remote", acc, wireAcc, calls)...)
+				}
+			}
+			if len(fs) > 0 {
+				report(r, c, fs, wit)
+			} else {
+				c.Inconclusive("accepted-recipient count differs between harness and next-hop transcript; not judged")
+			}
 			judged = false
 		}
 		if judged {
@@ -603,7 +628,15 @@ func runLMTP(t *testing.T, r *rep.Reporter, c *rep.Case, idx int) {
 			continue
 		}
 		if rec == nil || len(rec.AcceptedRcpts()) != len(lt.Accepted) {
-			c.Inconclusive("accepted-recipient count differs between harness and next-hop transcript; not judged")
+			var wireAcc []string
+			if rec != nil {
+				wireAcc = rec.AcceptedRcpts()
+			}
+			if fs := neverOffered("lmtp", lt.Accepted, wireAcc, calls); len(fs) > 0 {
+				report(r, c, fs, wit)
+			} else {
+				c.Inconclusive("accepted-recipient count differs between harness and next-hop transcript; not judged")
+			}
 			continue
 		}
 		for i := range lt.Accepted {
